@@ -14,7 +14,7 @@ RULE = ('random configurable shape (fn/init/new/method) with allowlist/denylist 
         'provenance and config_str() identical; an accepted value is stored under the one canonical key and injected by the next call; a '
         'rejected one is never injected. distinct = (shape, list kind, name class, api path, scoped?)')
 TIERS = {
-    'quick': {'workers': 8, 'cases': 900, 'timeout': 600},
+    'quick': {'workers': 8, 'cases': 3600, 'timeout': 600},
     'thorough': {'workers': 16, 'cases': 25000, 'timeout': 3000},
 }
 CLASSES = ['configurable', 'denylisted', 'not-allowlisted', 'unknown-no-varkw', 'unknown-varkw', 'varargs-name', 'unknown-configurable', 'method-bare']
